@@ -98,6 +98,7 @@ type checkResult struct {
 	Violations  []violation
 	Known       []string
 	KnownReplays []interface{}
+	Bounded     map[string]interface{}
 	Stats       SolveStats
 	Orphans     []string
 	Lemmas      int
@@ -238,7 +239,18 @@ func cmdCheck(args []string) {
 		res.Violations = append(res.Violations, violation{Obligation: "orphan:" + o, Replay: path, NoInput: true})
 		exit = 1
 	}
-	if res.Relevant == 0 && exit == 0 {
+	// bounded stand-ins (labelled bounded) for the parts of a property outside the verifier's reach
+	if test, ok := boundedTests[*prop]; ok {
+		bev, bvio := boundedCheck(*prop, test, *repo, *tier, seed, kfs, *replays)
+		res.Bounded = bev
+		if bvio > 0 {
+			exit = 1
+			for i := 0; i < bvio; i++ {
+				res.Violations = append(res.Violations, violation{Obligation: "bounded:" + *prop, Replay: *replays})
+			}
+		}
+	}
+	if res.Relevant == 0 && exit == 0 && res.Bounded == nil {
 		path := filepath.Join(*replays, fmt.Sprintf("%s-vacuous.json", *prop))
 		writeJSON(path, map[string]interface{}{"property": *prop, "obligation": "vacuity", "status": "no obligations generated"})
 		fmt.Printf("VIOLATION property=%s replay=%s no-failing-input-found\n", *prop, path)
@@ -586,6 +598,15 @@ func writeEvidence(w *World, res *checkResult, path string, seed int) {
 	if len(res.Known) > 0 {
 		cov["explanation"] = fmt.Sprintf("%d obligations are not discharged and match entries of known-findings.txt; they are counted as not discharged", len(res.Known))
 	}
+	if res.Bounded != nil {
+		level = "other"
+		cov["bounded_standins"] = res.Bounded
+		cov["explanation"] = boundedExplanation[res.Prop]
+		cov["evaluations"] = res.Bounded["evaluations"]
+		cov["distinct_nontrivial"] = res.Bounded["distinct_nontrivial"]
+		cov["rule"] = "deductive part: one obligation per contract clause and path; bounded part: inputs generated from the stated scope with a PRNG seeded by VERIF_SEED, de-duplicated by text"
+		assumptions = append(assumptions, "bounded stand-in: nothing outside the stated scope is covered; its oracle is written from the property text")
+	}
 	ev := map[string]interface{}{
 		"property_id": res.Prop,
 		"tier":        res.Tier,
@@ -721,4 +742,11 @@ func (w *World) neverClosedObligations(p string) []*Obligation {
 		}
 	}
 	return out
+}
+
+var boundedTests = map[string]string{"C07": "TestC07", "C16": "TestC16"}
+
+var boundedExplanation = map[string]string{
+	"C07": "Level other: the framing (parseMessage) is under contract, but the EEBUS transform itself (ship.JsonIntoEEBUSJson / ship.JsonFromEEBUSJson: encoding/json, go-ordered-json, textual replaces) is outside the verifier's reach and is covered only by a BOUNDED stand-in: the real functions run on a seeded sample of a finite document scope against an oracle written from the property text (member order, number literals as text, SHIP shape). Failing documents are classified by cause; causes listed in known-findings.txt are KNOWN-FINDINGs, a failing document showing no listed cause is a violation. Nothing here is counted as proved for the transform.",
+	"C16": "Level other: length bounds, TXT record structure and entry field mapping are proved deductively (obligations listed); the string algorithms (UTF-8 validity of the 32-byte cut, '=' in values, ';' in QR fields, category parsing, QR parse-back) are covered only by a BOUNDED stand-in on the real functions over strings built around the 32-byte boundary.",
 }
